@@ -64,12 +64,15 @@ Proof.
     rewrite N.add_mod_idemp_l by lia. f_equal. lia.
 Qed.
 
+Lemma dur_fold_wrap t a : a < M -> dur_fold (wrapM M) t a = (a + sumN (concat (t_truns t))) mod M.
+Proof. intros Ha. unfold dur_fold. apply fold_wrap. exact Ha. Qed.
+
 Lemma traf_step_dur id ff a t :
   a_dur a < M ->
   a_dur (traf_step_w (wrapM M) id ff a t) = (a_dur a + traf_ref_dur id t) mod M.
 Proof.
   intros Ha. unfold traf_step_w, traf_ref_dur. destruct (t_track t =? id).
-  - cbn [a_dur]. apply fold_wrap. exact Ha.
+  - cbn [a_dur]. apply dur_fold_wrap. exact Ha.
   - rewrite N.add_0_r, N.mod_small; auto.
 Qed.
 
@@ -97,6 +100,41 @@ Proof.
       rewrite N.add_mod_idemp_l by lia. f_equal. lia.
     + rewrite trafs_fold_dur by exact Ha. apply mod_lt_M.
 Qed.
+
+(* the same three for the current text (48b8dea) *)
+Lemma traf_step_r_dur id a t :
+  a_dur a < M ->
+  a_dur (traf_step_r (wrapM M) id a t) = (a_dur a + traf_ref_dur id t) mod M.
+Proof.
+  intros Ha. unfold traf_step_r, traf_ref_dur. destruct (t_track t =? id).
+  - cbn [a_dur]. apply dur_fold_wrap. exact Ha.
+  - rewrite N.add_0_r, N.mod_small; auto.
+Qed.
+
+Lemma trafs_fold_r_dur id ts : forall a,
+  a_dur a < M ->
+  a_dur (fold_left (traf_step_r (wrapM M) id) ts a) = (a_dur a + sumN (map (traf_ref_dur id) ts)) mod M.
+Proof.
+  induction ts as [|t r IH]; intros a Ha.
+  - cbn. rewrite N.add_0_r, N.mod_small; auto.
+  - cbn [fold_left map sumN]. rewrite IH.
+    + rewrite traf_step_r_dur by exact Ha. rewrite N.add_mod_idemp_l by lia. f_equal. lia.
+    + rewrite traf_step_r_dur by exact Ha. apply mod_lt_M.
+Qed.
+
+Lemma frags_step_r_dur id frs : forall a a',
+  a_dur a < M ->
+  frags_step_r (wrapM M) id a frs = Ok a' ->
+  a_dur a' = (a_dur a + sumN (map (frag_ref_dur id) frs)) mod M.
+Proof.
+  induction frs as [|fr t IH]; intros a a' Ha.
+  - cbn. intros [= <-]. rewrite N.add_0_r, N.mod_small; auto.
+  - cbn [frags_step_r]. destruct (fr_moof fr) as [m|] eqn:Mf; [|discriminate].
+    intros H. apply IH in H.
+    + rewrite H, trafs_fold_r_dur by exact Ha. cbn [map sumN]. unfold frag_ref_dur at 2. rewrite Mf.
+      rewrite N.add_mod_idemp_l by lia. f_equal. lia.
+    + rewrite trafs_fold_r_dur by exact Ha. apply mod_lt_M.
+Qed.
 End Wrap.
 
 (* repaired text: no wrap survives: the size is the segment's (mod 2^64, the width of Size()) and below
@@ -106,13 +144,13 @@ Lemma seg_data_of_facts id s d :
   sd_size d = seg_size s mod M64 /\ sd_size d < M31 /\ sd_dur d = seg_ref_dur id s mod M64 /\ sd_dur d < M32 /\ sd_start d = sg_start s.
 Proof.
   unfold seg_data_of, frags_step.
-  destruct (frags_step_w u64 id true (mkAcc 0 0%Z 0) (sg_frags s)) as [a| | |] eqn:E; cbn [rbind]; try discriminate.
+  destruct (frags_step_r u64 id acc0 (sg_frags s)) as [a| | |] eqn:E; cbn [rbind]; try discriminate.
   destruct (MAX_REF_SIZE <? u64 (seg_size s)) eqn:Hs; [discriminate|].
   destruct (MAX_REF_DUR <? a_dur a) eqn:Hd; [discriminate|].
   intros [= <-]. cbn [sd_size sd_dur sd_start].
   apply N.ltb_ge in Hs. apply N.ltb_ge in Hd. unfold MAX_REF_SIZE in Hs. unfold MAX_REF_DUR in Hd.
   change u64 with (wrapM M64) in E.
-  apply (frags_step_dur M64) in E; [|unfold M64; lia|cbn; unfold M64; lia]. cbn [a_dur] in E. rewrite N.add_0_l in E.
+  apply (frags_step_r_dur M64) in E; [|unfold M64; lia|cbn; unfold M64; lia]. cbn [a_dur] in E. rewrite N.add_0_l in E.
   unfold seg_ref_dur. rewrite <- E. unfold u32, u64 in *. fold M64 in Hs |- *. unfold M31, M32.
   rewrite !N.mod_small by lia. repeat split; lia.
 Qed.
@@ -135,7 +173,7 @@ Lemma seg_data_of_pinned_facts id s d :
   (sd_size d = seg_size s mod M32) /\ (sd_dur d = seg_ref_dur id s mod M32).
 Proof.
   unfold seg_data_of_pinned.
-  destruct (frags_step_w u32 id true (mkAcc 0 0%Z 0) (sg_frags s)) as [a| | |] eqn:E; cbn [rbind]; try discriminate.
+  destruct (frags_step_w u32 id true acc0 (sg_frags s)) as [a| | |] eqn:E; cbn [rbind]; try discriminate.
   intros [= <-]. cbn [sd_size sd_dur]. split; [reflexivity|].
   change u32 with (wrapM M32) in E.
   apply (frags_step_dur M32) in E; [|unfold M32; lia|cbn; unfold M32; lia]. cbn [a_dur] in E. rewrite N.add_0_l in E. exact E.
